@@ -9,3 +9,8 @@ def run(tier, seed):
         run_container("C07", kind, tier, seed, res=res, finish=False, do_explore=(kind == "hg"), queries=False,
                       plan={"hash": 1.0}, own_ops={"hash"}, scale=0.4 if tier == "quick" else 1.0)
     return res.finish()
+
+
+def replay(path):
+    from checks.containers import replay_container
+    return replay_container("C07", path)
